@@ -3,6 +3,8 @@
 package chain
 
 import (
+	"time"
+
 	"github.com/aergoio/aergo/v2/state"
 	"github.com/aergoio/aergo/v2/types"
 )
@@ -30,8 +32,40 @@ func (cs *ChainService) VerifHasReorgMarker() bool {
 	return err == nil && m != nil
 }
 
+// VerifQuiesce waits until a signature verification that was requested for a block and never
+// collected (the block failed before the wait) has finished. Nothing is consumed: the pending
+// result stays where the next block will find it, exactly as in a real node a moment later.
+func (cs *ChainService) VerifQuiesce() {
+	sv := cs.validator.signVerifier
+	for i := 0; ; i++ {
+		r, p, k := sv.verifReq.Load(), sv.verifDone.Load(), sv.verifTaken.Load()
+		out := p - k
+		want := 0
+		if out > 0 {
+			want = 1
+		}
+		if r == p && len(sv.resultCh) == want {
+			if out > 1 {
+				time.Sleep(50 * time.Microsecond) // let the surplus collector park on its send
+			}
+			return
+		}
+		if i > 2000000 {
+			panic("verif: signature verifier did not finish")
+		}
+		time.Sleep(5 * time.Microsecond)
+	}
+}
+
+// VerifStaleVerifyResult reports whether an uncollected verification result is pending.
+func (cs *ChainService) VerifStaleVerifyResult() bool {
+	sv := cs.validator.signVerifier
+	return sv.verifDone.Load() != sv.verifTaken.Load()
+}
+
 // VerifStop releases what NewChainService started (actors, verifier workers).
 func (cs *ChainService) VerifStop() {
+	cs.VerifQuiesce()
 	cs.chainManager.Stop()
 	cs.chainWorker.Stop()
 	cs.validator.Stop()
